@@ -3,6 +3,7 @@
 # Applies the patch to a scratch worktree of /repo HEAD (outside /repo and /verif), runs the
 # quick checks against it (VERIF_REPO), prints exit codes, removes the scratch tree.
 set -u
+here="$(cd "$(dirname "$0")/.." && pwd)"
 patch="$(realpath "$1")"; shift
 scratch="$(mktemp -d /tmp/gvmut.XXXXXX)"
 out="$(mktemp -d /tmp/gvmutout.XXXXXX)"
@@ -12,7 +13,7 @@ if [ "${TESTS:-0}" = "1" ]; then
   (cd "$scratch/repo" && timeout 900 /venv/bin/python -m pytest -q -p no:cacheprovider -x --timeout=900 --continue-on-collection-errors 2>&1 | tail -2)
 fi
 for prop in "$@"; do
-  VERIF_REPO="$scratch/repo" VERIF_OUT="$out" timeout 900 /venv/bin/python /verif/check.py "$prop" --tier quick ${RUNS:+--runs $RUNS} > "$out/$prop.log" 2>&1
+  VERIF_REPO="$scratch/repo" VERIF_OUT="$out" timeout 900 /venv/bin/python "$here/check.py" "$prop" --tier quick ${RUNS:+--runs $RUNS} > "$out/$prop.log" 2>&1
   code=$?
   echo "MUTANT $(basename "$patch") $prop exit=$code $(grep -c '^VIOLATION' "$out/$prop.log") violation line(s); $(grep -m1 'sig=' "$out/$prop.log" | cut -c1-220)"
 done
